@@ -39,9 +39,11 @@ CLAIMED = {
          "DESIGN.md §2 C16", TECH_T),
  "C02": ("proof", "Lean 4: a generic theorem (Lib/RotExp) that A^4 = -t^2 A^2 implies NormedSpace.exp A = 1 + A + c(t)A^2 + d(t)A^3 "
          "(Rodrigues closed form, proved from the exponential series, t = 0 included), instantiated for so2/se2/r^n/so3/se3/se23 hat matrices; "
-         "then for the translated exp of SO2, SE2, R2, R3, SO3Dcm, SO3Quat, SO3Mrp (shadow switch included), SE3Quat, SE3Mrp: to_Matrix(exp x) = "
+         "then for the translated exp of SO2, SE2, R2, R3, SO3Dcm, SO3Quat, SO3Mrp (shadow switch included), SE3Quat, SE3Mrp, SE23Quat, SE23Mrp: to_Matrix(exp x) = "
          "NormedSpace.exp(hat x) exactly, for every angle (beyond pi too) on the closed-form cell of the series coefficients, and at zero rotation. "
-         "Taylor cells (theta^2 < 1e-3), SE23 (goes through from_Matrix) and the Euler target: numeric search only (named in evidence).",
+         "SE23Quat and SE23Mrp (their exp hands a 5x5 matrix to from_Matrix; that matrix is exposed by a probe of the real body, proved to be the matrix "
+         "exponential, the outputs are proved to be from_Matrix of it, and to_Matrix o from_Matrix = id through C07's Shepperd theorem): same statement. "
+         "Taylor cells (theta^2 < 1e-3) and the Euler target: numeric search only (named in evidence).",
          "DESIGN.md §2 C02", TECH_T),
  "C03": ("proof", "Lean 4 theorems over the regenerated log/exp programs: exp and log mutually inverse identically for SO2, R2, R3; SE2 "
          "exp(log X) = X and log(exp x) = x whenever the code's denominator is non-zero, and that denominator is non-zero for eps<=|theta|<2pi; "
